@@ -688,10 +688,15 @@ func ruleNoFabricatedOperands(c *core.Ctx, rule string) {
 				}
 				made, parsed := false, false
 				for _, e := range p.Edges {
-					switch core.Canon(e).(type) {
+					switch x := core.Canon(e).(type) {
 					case *ssa.MakeSlice:
 						made = true
-					case *ssa.Extract, *ssa.Call, *ssa.TypeAssert, *ssa.Parameter:
+					case *ssa.Call:
+						if bi, isB := x.Call.Value.(*ssa.Builtin); isB && bi.Name() == "append" {
+							continue // the list being filled in a loop: make(.., 0, n) then append
+						}
+						parsed = true
+					case *ssa.Extract, *ssa.TypeAssert, *ssa.Parameter:
 						parsed = true
 					}
 				}
